@@ -79,9 +79,21 @@ impl SubCheck for Values {
                 }
                 let u: DateTime<Utc> = call("serde_json::from_str", || serde_json::from_str(&js))?.map_err(|e| format!("{js} does not deserialize as DateTime<Utc>: {e}"))?;
                 ensure_eq!(u.naive_utc(), f.naive_utc(), "{js} read as DateTime<Utc>");
+                let l: DateTime<chrono::Local> = call("serde_json::from_str", || serde_json::from_str(&js))?.map_err(|e| format!("{js} does not deserialize as DateTime<Local>: {e}"))?;
+                ensure_eq!(l.naive_utc(), f.naive_utc(), "{js} read as DateTime<Local>");
                 let bin = call("bincode::serialize", || bincode::serialize(&f))?.map_err(|e| format!("bincode serialization failed: {e}"))?;
                 let b2: DateTime<FixedOffset> = call("bincode::deserialize", || bincode::deserialize(&bin))?.map_err(|e| format!("bincode form of {f:?} does not deserialize: {e}"))?;
                 ensure_eq!(b2.naive_utc(), f.naive_utc(), "DateTime<FixedOffset> bincode instant");
+                let l2: DateTime<chrono::Local> = call("bincode::deserialize", || bincode::deserialize(&bin))?.map_err(|e| format!("bincode form of {f:?} does not deserialize as DateTime<Local>: {e}"))?;
+                ensure_eq!(l2.naive_utc(), f.naive_utc(), "DateTime<FixedOffset> bincode read as DateTime<Local>");
+                // a DateTime<Local> holding the same instant writes a text that reads back to it
+                let lv = f.with_timezone(&chrono::Local);
+                let ud = crate::conv::unix_day_of(f.naive_utc().date());
+                if lv.offset().local_minus_utc() % 60 == 0 && crate::refmodel::cal::in_range_day(ud - 1) && crate::refmodel::cal::in_range_day(ud + 1) {
+                    let ljs = call("serde_json::to_string", || serde_json::to_string(&lv))?.map_err(|e| format!("DateTime<Local> JSON serialization failed: {e}"))?;
+                    let lb: DateTime<chrono::Local> = call("serde_json::from_str", || serde_json::from_str(&ljs))?.map_err(|e| format!("{ljs} does not deserialize as DateTime<Local>: {e}"))?;
+                    ensure_eq!(lb.naive_utc(), f.naive_utc(), "DateTime<Local> {lv:?} -> {ljs} -> instant");
+                }
                 if off % 60 == 0 {
                     ensure_eq!(b2.offset().local_minus_utc(), off, "DateTime<FixedOffset> bincode offset");
                 }
